@@ -736,7 +736,13 @@ class Interp:
             return r
         except AttributeError as e:
             if getattr(v, "__pyvc_symbolic__", False):
+                hook = getattr(type(v), "pyvc_missing_attr", None)
+                if hook is not None:
+                    return hook(v, self, name)  # (the library's own __getattr__: e.g. a DataFrame's columns are attributes)
                 raise Unsupported(f"theory value {type(v).__name__} has no model for .{name}")
+            if type(v).__module__.split(".")[0] == "pyvc":
+                # an interpreter value (an opaque attribute, a bound method, ...): what the real object would answer is not known
+                raise Unsupported(f"attribute .{name} of an interpreter value {type(v).__name__}")
             raise PyExc(self.make_exc(AttributeError, *e.args))
 
     def obj_getattr(self, o: Obj, name):
